@@ -89,6 +89,9 @@ def install(plan):
             self._vf_group = State.queues
             State.queues += 1
             self._vf_gets = 0
+            # a new queue starts a new batch group: the liveness bookkeeping of the previous group is void
+            State.processes = None
+            State.empties_after_all_dead = 0
 
         def get(self, block=True, timeout=None):
             g = self._vf_group
@@ -113,6 +116,7 @@ def install(plan):
             log("get_ok", group=g, id=item_id(obj))
             State.fresh = True
             State.last_empty = False
+            State.empties_after_all_dead = 0  # progress: only *consecutive* fruitless time-outs count
             return obj
 
     class MPShim:
